@@ -17,6 +17,7 @@
   `Held s h`: `h` is the handle of some pool entry of `s` (live or consumed) or of some memo entry.
 -/
 import ParsleyVerif.Proofs.SliceRun
+import ParsleyVerif.Generated.Facts
 namespace PV.Slice
 
 /-- **C07 (frame, append family; every history, every growth policy).**  In any reachable state (reached by
@@ -36,6 +37,11 @@ theorem c07_returned (grow : Nat → Nat) (ops : List Op) (hops : ∀ op ∈ ops
     ∀ p ∈ (runTrace grow ops ({}, [])).2, render (runTrace grow ops ({}, [])).1 p.1 = p.2 := by
   intro p hp
   exact ((runTrace_ok grow ops hops Inv.init (fun q hq => by simp at hq)) p hp).2
+
+/-- the recorded values of `c07_returned` are exactly the values ever put into the pool, in order -/
+theorem c07_returned_complete (grow : Nat → Nat) (ops : List Op) :
+    (runTrace grow ops ({}, [])).2.map (·.1) = (runTrace grow ops ({}, [])).1.pool.map (·.h) :=
+  runTrace_complete grow ops Inv.init rfl
 
 /-- **C07 (asking again).**  After a successful `memoStore key i` in any reachable state, and any continuation
     without SetReaderPos, `memoHit key` succeeds and returns the very handle the store returned, and it reads the
@@ -87,6 +93,22 @@ theorem c07_cells_flat (grow : Nat → Nat) (ops : List Op) (a : Nat) (c : Handl
   | list sl => exact absurd this (by simp [CellOK])
   | ptr m => exact ⟨by intro sl; simp, fun m' h => by cases h; exact this⟩
   | _ => exact ⟨by intro sl; simp, by intro m h; cases h⟩
+
+/-- in every reachable state a list that anybody holds is non-empty and has no nil element (so
+    `NodeList.SetReaderPos` never calls `ast.SetReaderPos(nil, …)`, which would panic in Go and which the model
+    does not represent) -/
+theorem c07_lists_wellformed (grow : Nat → Nat) (ops : List Op) (sl : Slice)
+    (hh : Held (run grow ops {}) (Handle.list sl)) :
+    0 < sl.len ∧ Handle.nil ∉ view (run grow ops {}).arrs sl := by
+  obtain ⟨top, inv⟩ := reachable_inv grow ops
+  have hw := hh.hwf inv
+  exact ⟨hw.2.1, hw.2.2.2⟩
+
+/-- the source text of `combinator.Optional` (regenerated from the repository on every run) is what
+    `Op.optionalAppend` transcribes -/
+theorem c07_source_facts :
+    Facts.optionalBody = "{returnparser.Func(func(ctx*parsley.Context,leftRecCtxdata.IntMap,posparsley.Pos)(parsley.Node,data.IntSet,parsley.Error){res,cp,err:=p.Parse(ctx,leftRecCtx,pos)returnast.AppendNode(res,ast.EmptyNode(pos)),cp,err})}" :=
+  rfl
 
 /-- Go's doubling growth for small slices -/
 def goGrow (c : Nat) : Nat := 2 * c
